@@ -4,7 +4,7 @@
    Statements only; proofs in coq/proofs/RetryP.v.  Two models:
      model/Retry.v   the queue round trip of the retry message (serialise -> INSERT attempts = 0 -> poll_one:
                      attempts := row + 1, the carried value popped), composed from generated definitions
-                     (Gen_Guards.retry_guard, Gen_Queue.*, Gen_Messages.deser_popped, Gen_Retry.*);
+                     (Gen_Guards.retry_guard, Gen_Queue, Gen_Messages.deser_popped, Gen_Retry);
      model/Engine.v  the RunTask handler at commit granularity (validated against the real engine commit by commit).
 
    RESULT.  The bounded half of the property is FALSE on the current tree (known finding "retries-unbounded", design
@@ -12,12 +12,13 @@
    C14_unbounded_engine_refuted give, for every n, a run with n executions and the task still RUNNING.  C14_guard_bounded
    states what the guard WOULD give if the carried count survived the queue (the repaired behaviour, a hypothesis on the
    delivery function).  The other halves hold: redelivery of one row is bounded (C14_same_row_bounded) and the saved
-   progress is committed atomically with the retry message (C14_progress_kept_*). *)
+   progress is committed atomically with the retry message (the C14_progress_kept theorems). *)
 From Coq Require Import List Bool Arith ZArith Lia.
 Import ListNotations.
 From Stab.model Require Import Base StatusM Readiness StageStat Engine Retry.
 From Stab.gen Require Import Gen_Config Gen_Guards Gen_Queue Gen_Retry.
 From Stab.proofs Require Import EngineEx RetryP.
+Local Open Scope nat_scope.
 
 (* ---------------------------------------------------------------------------------------------- *)
 (* 1. the round trip                                                                               *)
